@@ -122,7 +122,8 @@ Section Ops.
   Proof.
     induction l as [|m l IH]; intros b H n; simpl; auto.
     simpl in H. apply andb_true_iff in H. destruct H as [H1 H2].
-    unfold Durable.brun in IH. simpl. rewrite (IH _ H2 n). destruct m; simpl in *; try reflexivity; discriminate.
+    change (brun b (m :: l)) with (brun (bstep b m) l).
+    rewrite (IH (bstep b m) H2 n). destruct m; simpl in *; try reflexivity; discriminate.
   Qed.
 
   Lemma forallb_firstn {A} (f : A -> bool) l : forall k, forallb f l = true -> forallb f (firstn k l) = true.
@@ -136,7 +137,7 @@ Section Ops.
   Proof. intros H. induction l; simpl; auto. rewrite H. exact IHl. Qed.
 
   Theorem maintenance_writes_no_document b h o :
-    match o with OFlush | OSaveExt | OCreateIndex _ _ | ORemoveIndex _ => True | _ => False end ->
+    match o with OFlush _ | OSaveExt _ | OCreateIndex _ _ | ORemoveIndex _ _ => True | _ => False end ->
     forall k, docs_eq (crash k (op_steps o h) b) b.
   Proof.
     intros Ho k. unfold crash. apply brun_no_doc. apply forallb_firstn.
@@ -149,4 +150,26 @@ Section Ops.
     - change remove_btree_order with [TUnregister; TMetaNow; TIdxDrop]. reflexivity.
   Qed.
 
+  (* ---------------------------------------------------------------- crash anywhere in a document operation, then reopen *)
+  Notation open := (@open D K Keq derive).
+  Notation Opened := (Opened D K derive).
+
+  Theorem add_crash_reopen b h d :
+    Inv b -> Live b h ->
+    forall k, exists h', open (crash k (op_steps (OAdd d) h) b) = Some h' /\ Opened (crash k (op_steps (OAdd d) h) b) h'.
+  Proof. intros HI HL k. apply (open_sync D K Keq derive stride). apply add_prefix_Inv; auto. Qed.
+
+  Theorem update_crash_reopen b h id dold dnew :
+    Inv b -> b_docs b id = Some dold ->
+    forall k, exists h', open (crash k (op_steps (OUpdate id dold dnew) h) b) = Some h' /\
+                         Opened (crash k (op_steps (OUpdate id dold dnew) h) b) h'.
+  Proof. intros HI Hd k. apply (open_sync D K Keq derive stride). apply update_prefix_Inv; auto. Qed.
+
+  Theorem remove_crash_reopen b h id dold :
+    Inv b -> b_docs b id = Some dold ->
+    forall k, exists h', open (crash k (op_steps (ORemove id dold) h) b) = Some h' /\
+                         Opened (crash k (op_steps (ORemove id dold) h) b) h'.
+  Proof. intros HI Hd k. apply (open_sync D K Keq derive stride). apply remove_prefix_Inv; auto. Qed.
+
 End Ops.
+
